@@ -118,6 +118,7 @@ type FnCtx struct {
 	bounded    map[string]bool
 	ghostFuncs map[string]ghostFn
 	stack      []*ssa.Function
+	hyps       []Term // goals already proved at the same program point (step clauses are proved in order, each may use the earlier ones)
 	assumeMode bool // specification currently evaluated is going to be assumed (not proved)
 	trigNames  map[string]string
 }
@@ -216,11 +217,15 @@ func (fx *FnCtx) oblige(kind, name, text string, st *State, goal Term, pos token
 		p := fx.eng.prog.Fset.Position(pos)
 		ob.Pos = fmt.Sprintf("%s:%d", p.Filename, p.Line)
 	}
+	if len(fx.hyps) > 0 && goal != "true" {
+		goal = "(=> " + and(fx.hyps...) + " " + goal + ")"
+	}
 	ob.SMT = fx.s.render(fx.s.mark(), st.guard, goal, fmt.Sprintf("obligation %s\nkind %s\n%s\n%s", full, kind, text, ob.Pos), true)
 	fx.obs = append(fx.obs, ob)
 	// assert-then-assume, for quantifier-free goals only: a quantified goal asserted in a state whose heaps are
 	// ite/append terms is a source of matching loops for every later obligation
-	if !strings.Contains(goal, "(forall ") && !strings.Contains(goal, "(exists ") {
+	// (nothing is executed after a back edge or a return: goals proved there are of no use to later obligations)
+	if !strings.Contains(goal, "(forall ") && !strings.Contains(goal, "(exists ") && kind != "inv-pres" && kind != "post" && kind != "variant" {
 		fx.s.assume(st.guard, goal)
 	}
 }
@@ -1102,6 +1107,18 @@ func (fr *Frame) enterLoop(li *loopInfo, pre *State) *State {
 		}
 		entryVals[phi] = fr.mergePhi(phi, b, false)
 	}
+	// map-range loops: ghost set of visited keys
+	for _, ins := range b.Instrs {
+		if nx, ok := ins.(*ssa.Next); ok {
+			if rg, ok := nx.Iter.(*ssa.Range); ok {
+				if mt, ok := rg.X.Type().Underlying().(*types.Map); ok {
+					mi := fx.tm.mapInfo(mt)
+					li.visitedSort = "(Array " + mi.KeySort + " Bool)"
+					li.visited = fx.s.freshConst("visited", li.visitedSort)
+				}
+			}
+		}
+	}
 	// 2. inv-init
 	for phi, v := range entryVals {
 		fr.env[phi] = v
@@ -1111,8 +1128,10 @@ func (fr *Frame) enterLoop(li *loopInfo, pre *State) *State {
 	}
 	fr.visitedMode = 1
 	for _, c := range invs {
-		t := fr.evalClause(c, pre, li)
-		fx.oblige("inv-init", fmt.Sprintf("%s/inv-init/loop%d/%s", name, li.ordinal, c.Label), c.Text, pre, t, b.Instrs[0].Pos(), fr.props())
+		fx.s.goal(func() {
+			t := fr.evalClause(c, pre, li)
+			fx.oblige("inv-init", fmt.Sprintf("%s/inv-init/loop%d/%s", name, li.ordinal, c.Label), c.Text, pre, t, b.Instrs[0].Pos(), fr.props())
+		})
 	}
 	fr.visitedMode = 0
 	if fr.fc != nil {
@@ -1140,18 +1159,6 @@ func (fr *Frame) enterLoop(li *loopInfo, pre *State) *State {
 		li.phiVals[phi] = fr.env[phi]
 	}
 	fx.frameAssumption(hs, pre)
-	// map-range loops: ghost set of visited keys
-	for _, ins := range b.Instrs {
-		if nx, ok := ins.(*ssa.Next); ok {
-			if rg, ok := nx.Iter.(*ssa.Range); ok {
-				if mt, ok := rg.X.Type().Underlying().(*types.Map); ok {
-					mi := fx.tm.mapInfo(mt)
-					li.visitedSort = "(Array " + mi.KeySort + " Bool)"
-					li.visited = fx.s.freshConst("visited", li.visitedSort)
-				}
-			}
-		}
-	}
 	li.hdrSt = hs.clone()
 	// 4. assume invariants
 	for _, c := range fr.autoInvs(li) {
@@ -1229,20 +1236,39 @@ func (fr *Frame) backEdge(from *ssa.BasicBlock, li *loopInfo, st *State) {
 	for _, c := range fr.autoInvs(li) {
 		fx.oblige("inv-pres", fmt.Sprintf("%s/inv-pres/loop%d/auto:%s", name, li.ordinal, c.label), c.text, st, c.eval(st), b.Instrs[0].Pos(), nil)
 	}
-	fr.visitedMode = 2
-	for _, c := range invs {
-		t := fr.evalClause(c, st, li)
-		fx.oblige("inv-pres", fmt.Sprintf("%s/inv-pres/loop%d/%s", name, li.ordinal, c.Label), c.Text, st, t, b.Instrs[0].Pos(), fr.props())
-	}
-	fr.visitedMode = 0
 	if fr.fc != nil {
 		for _, c := range fr.fc.Steps[li.ordinal] {
-			fr.evalAt = from
-			t := fr.evalClause(c, st, li)
-			fr.evalAt = nil
-			fx.oblige("inv-pres", fmt.Sprintf("%s/step/loop%d/%s", name, li.ordinal, c.Label), c.Text, st, t, b.Instrs[0].Pos(), fr.props())
+			fx.s.goal(func() {
+				fr.evalAt = from
+				t := fr.evalClause(c, st, li)
+				fr.evalAt = nil
+				fx.oblige("inv-pres", fmt.Sprintf("%s/step/loop%d/%s", name, li.ordinal, c.Label), c.Text, st, t, b.Instrs[0].Pos(), fr.props())
+				if len(t) < 20000 {
+					fx.hyps = append(fx.hyps, t)
+				}
+			})
 		}
 	}
+	fr.visitedMode = 2
+	for _, c := range invs {
+		fx.s.goal(func() {
+			t := fr.evalClause(c, st, li)
+			fx.oblige("inv-pres", fmt.Sprintf("%s/inv-pres/loop%d/%s", name, li.ordinal, c.Label), c.Text, st, t, b.Instrs[0].Pos(), fr.props())
+		})
+	}
+	fr.visitedMode = 0
+	fx.hyps = nil
+	// vacuity guard: this back edge is reachable under everything assumed so far
+	if fr.top && fx.quiet == 0 && st.guard != "false" && (len(invs) > 0 || (fr.fc != nil && len(fr.fc.Steps[li.ordinal]) > 0)) {
+		ob := &Obligation{Name: fmt.Sprintf("%s/cover/loop%d/back-edge", name, li.ordinal), Kind: "cover", Func: fx.topName(), Text: "the end of the loop body is reachable", Props: fr.props(), MustSat: true}
+		fx.obNames[ob.Name]++
+		if n := fx.obNames[ob.Name]; n > 1 {
+			ob.Name = fmt.Sprintf("%s#%d", ob.Name, n)
+		}
+		ob.SMT = fx.s.render(fx.s.mark(), st.guard, "false", "vacuity guard (must be sat) "+ob.Name, true)
+		fx.obs = append(fx.obs, ob)
+	}
+
 	if decr != nil {
 		sv := fr.evalSpec(decr.E, st, li)
 		fx.oblige("variant", fmt.Sprintf("%s/variant/loop%d", name, li.ordinal), decr.Text, st,
@@ -2204,8 +2230,10 @@ func (fr *Frame) atReturn(ret *ssa.Return, vals []Val, st *State) {
 	}
 	name := fr.obName()
 	for _, c := range fr.fc.Ensures {
-		t := fr.evalPost(c.E, vals, st)
-		fx.oblige("post", fmt.Sprintf("%s/post/%s", name, c.Label), c.Text, st, t, ret.Pos(), fr.props())
+		fx.s.goal(func() {
+			t := fr.evalPost(c.E, vals, st)
+			fx.oblige("post", fmt.Sprintf("%s/post/%s", name, c.Label), c.Text, st, t, ret.Pos(), fr.props())
+		})
 	}
 	for _, c := range fr.fc.Canaries {
 		t := fr.evalPost(c.E, vals, st)
